@@ -19,9 +19,14 @@ def run(tier, seed):
     acc = progcheck.Accum()
     cost = 2 if tier == 'quick' else 3
     acc.run('scope<=%d' % cost, 'mc.lang.gen_scope', 'programs', (cost,), world.POP_THREE, cap=8000)
+    # `return` from the inner of two nested loops (counted and light loops) with the caller's operands, loops and
+    # light iteration pending: the caller continues unaffected
+    acc.run('returns-from-nested-loops', 'mc.lang.gen_loops', 'returns_from_nested_programs', (world.POP_THREE,),
+            world.POP_THREE, cap=8000)
     acc.report(rep, 'recursion templates, two-routine programs (every call form x argument naming x context) and every '
                     'single-routine program with body cost <=%d x 6 parameter lists x every argument tuple x 4 call-site kinds; '
-                    'printed values before/inside/after each call compared with the reference scoping rules' % cost)
+                    'printed values before/inside/after each call compared with the reference scoping rules; routines that return out '
+                    'of two nested loops of every kind, called from light/group/counted loops and inside expressions' % cost)
     return rep
 
 
